@@ -143,6 +143,7 @@ fn op(c: &mut Cur, delivery_only: bool) -> Op {
         34 | 35 => Op::StageRoundTrip { r },
         36 => Op::Snapshot { r },
         37 | 38 => Op::TimeTravel { r, heads: c.u16() },
+        39 if c.flag() => Op::Churn { r, n: 9 + c.u8() % 5, commit_each: c.flag() },
         39 => {
             let n = 1 + c.u8() % 2;
             Op::MergeCommit { r, from: c.u8(), edit: (0..n).map(|_| edit_step(c)).collect() }
